@@ -69,14 +69,15 @@ PROP = {'drive': ['Cff'], 'modules': ['SfntV.Props.C13'],
                  'FDSelect: 1..65 535 glyphs, FD indices < number of private dicts <= 256',
                  'DICT integers: int32; reals: nine-digit mantissa chosen by the float computation',
                  'widths are 16.16 fixed-point numbers, |w| <= 32767',
-                 'offset fixed point of Write: the Go loop has no bound; the model loop runs with fuel writeFuel (position of the last '
-                 'section when every offset operand takes five bytes, plus one) and C13_write_converges proves, for every font whose '
-                 'pre-loop part succeeds, that the loop settles within it (monotone section sizes; each non-final pass moves the last '
-                 'section). Remaining hypotheses of C13_font_roundtrip_total: a custom encoding vector is accepted by encodeEncoding '
-                 '(it refuses more than 255 ranges) and writeFits (Top DICT, string INDEX and FDArray stay below the 4 GiB / 65535-item '
-                 'limits of an INDEX with five-byte operands - otherwise cffIndex.encode panics in the Go code); the model works on '
-                 'unbounded integers, the int32 offsets of the Go code wrap above 2 GiB (the read-back clause is stated for files < 2 GiB). '
-                 'The sweep family (D cff.file.rt, V cff.file.model) still exercises the real loop: up to 6 passes observed',
+                 'offset fixed point of Write: the Go loop has no bound; the model loop runs with fuel writeFuel = 40 + 15 x (number of '
+                 'private DICTs) and C13_write_converges proves, for every font whose pre-loop part succeeds, that the loop settles '
+                 'within 39 + 15 x (number of private DICTs) passes (monotone section sizes; each non-final pass moves the last '
+                 'section; it can move at most 37 + 15 bytes per private DICT). Remaining hypotheses of C13_font_roundtrip_total: a '
+                 'custom encoding vector is accepted by encodeEncoding (it refuses more than 255 ranges) and writeFits (Top DICT, '
+                 'string INDEX and FDArray stay below the 4 GiB / 65535-item limits of an INDEX with five-byte operands - otherwise '
+                 'cffIndex.encode panics in the Go code); the model works on unbounded integers, the int32 offsets of the Go code '
+                 'wrap above 2 GiB (the read-back clause is stated for files < 2 GiB). The sweep family (D cff.file.rt, V '
+                 'cff.file.model) still exercises the real loop: up to 6 passes observed',
                  'encodings with 250..256 codes (contiguous, scrambled, partly ranged, range counts 1..256 around 127/128/129 and 255, '
                  'supplements) are a fixed boundary family: D cff.encoding.rt on the real code, V against the model, whole fonts with 255/256 '
                  'encoded glyphs; 256 glyphs in 256 ranges are refused by encodeEncoding (neither format can hold them), verdict only',
